@@ -488,7 +488,10 @@ def replay(ctx, rep):
     case = rep["case"] or {}
     model = C.Model("brine")
     model = model if model.available() else None
-    if "bytes" in case:
+    if "deep_wide" in case or "object" in case:
+        deep_wide(ctx)
+        check_encode(ctx, model, [BadRepr(), (1, LoudRepr()), frozenset([BadRepr()])], gen_params())
+    elif "bytes" in case:
         check_decode(ctx, model, [bytes.fromhex(case["bytes"])], gen_params())
     elif "value_sx" in case:
         check_encode(ctx, model, [from_sx(C.sx_loads(case["value_sx"]))], gen_params())
